@@ -536,9 +536,9 @@ func c05Stale(c *ev.Ctx, p c05Pkg) {
 	}
 }
 
-// c05Arity: no application whose head is a function defined in the same file has MORE arguments than that definition
-// has binders (type parameters first), unless the function's body ends in a function (method values and interface
-// conversions are partial applications, so fewer arguments are legitimate).
+// c05Arity: an application whose head is a function defined in the same file has as many arguments as that definition
+// has binders (type parameters first). More are legitimate only if the function's body contains a function (it may
+// return one); fewer only for methods (method values and interface conversions bind the receiver alone).
 func c05Arity(pf *vparse.File) string {
 	ar := map[string]int{}
 	returnsFunc := map[string]bool{}
@@ -574,7 +574,10 @@ func c05Arity(pf *vparse.File) string {
 				head = head.Kids[0]
 			}
 			if head.Kind == "id" {
-				if want, ok := ar[head.Name]; ok && args > want && !returnsFunc[head.Name] {
+				want, ok := ar[head.Name]
+				over := args > want && !returnsFunc[head.Name]
+				under := args < want && !strings.Contains(head.Name, "__") // only methods are applied partially (method values, conversions)
+				if ok && (over || under) {
 					bad = fmt.Sprintf("in %s, %s (defined with %d parameters) is applied to %d arguments: %s", d.Name, head.Name, want, args, n.String())
 				}
 			}
